@@ -1241,7 +1241,7 @@ class ValueObject(Value):
 
     def __repr__(self):
         fn = self.resolveItem("_str_")
-        if fn:
+        if fn and fn.isFunc():
             args_ = Args(None)
             args_.addArgs(fn.getArgNames())
             args_.setArgs([None], [self])
